@@ -81,6 +81,44 @@ fn check_dir(s: &mut Session, key: &str, d: &Delivered, plain: &[u8], want_addr:
     true
 }
 
+/// client -> server through the repo's WebSocketFramed: pieces are WebSocket messages
+fn ws_case(s: &mut Session, rng: &mut Rng, proto: &str, style: u64) {
+    s.begin_case(&format!("ws:{}:cut{}", proto, style));
+    let (c, sv) = (s.fresh("c"), s.fresh("s"));
+    let addr = random_addr(rng);
+    let mut fm = 1;
+    match proto {
+        "vmess" => {
+            let uuid = random_uuid(rng);
+            s.run(&format!("vm.client {} uuid={} cipher=aes-128-gcm cmd=tcp addr={}", c, uuid, addr));
+            s.run(&format!("vm.server {} users=a:{} adapter=ws", sv, uuid));
+        }
+        "trojan" => {
+            s.run(&format!("tj.client {} password=pw{} cmd=tcp addr={}", c, rng.below(1000), addr));
+            let pw = s.lines.last().unwrap().split("password=").nth(1).unwrap().split(' ').next().unwrap().to_owned();
+            s.run(&format!("tj.server {} password={} adapter=ws", sv, pw));
+        }
+        cipher => {
+            let cipher: &'static str = CIPHERS.iter().find(|c| **c == cipher).unwrap();
+            let cfg = random_cfg(rng, cipher, false);
+            let (cc, sc) = (s.fresh("cc"), s.fresh("sc"));
+            s.run(&format!("ss.cctx {} cipher={} password={}", cc, cipher, cfg.client_password));
+            s.run(&format!("ss.sctx {} cipher={} password={} users=-", sc, cipher, cfg.server_password));
+            s.run(&format!("ss.new {} {} {}", c, cc, addr));
+            s.run(&format!("ss.new {} {} - adapter=ws", sv, sc));
+            fm = first_min(cipher, true, false);
+        }
+    }
+    let writes = random_writes(rng, false);
+    let Some(wire) = encode_all(s, &c, &writes) else { return };
+    let pieces = cut(rng, &wire, fm, style);
+    let d = feed_all(s, &sv, &pieces, false);
+    if !check_dir(s, &format!("ws-c2s:{}", proto), &d, &writes.concat(), Some(&addr)) {
+        return;
+    }
+    s.mark_nontrivial();
+}
+
 fn vm_case(s: &mut Session, rng: &mut Rng, cipher: &'static str, style: u64, big: bool) {
     s.begin_case(&format!("vmess:{}:cut{}", cipher, style));
     let (c, sv) = (s.fresh("c"), s.fresh("s"));
@@ -153,6 +191,9 @@ pub fn generate(s: &mut Session, tier: &str, rng: &mut Rng) {
                 vm_case(s, rng, cipher, style, big);
             }
             tj_case(s, rng, style, big);
+            for proto in ["vmess", "trojan", "aes-256-gcm", "2022-blake3-aes-128-gcm"] {
+                ws_case(s, rng, proto, style);
+            }
         }
     }
 }
